@@ -21,6 +21,8 @@ for variant in ('', '_b'):
         print(f'{sid}{variant}: not delivered'); continue
     res = {'sid': sid, 'variant': variant, 'props': props}
     sh(['git', '-C', wt, 'checkout', '--', '.']); sh(['git', '-C', wt, 'clean', '-fdq'])
+    head = sh(['git', '-C', '/repo', 'rev-parse', 'HEAD']).stdout.strip()     # sarpy fixes committed meanwhile: evaluate against the current HEAD
+    sh(['git', '-C', wt, 'checkout', '-q', '--detach', head])
     a = sh(['git', '-C', wt, 'apply', patch])
     if a.returncode:
         print(f'{sid}{variant}: patch does not apply: {a.stderr[:300]}'); continue
